@@ -107,6 +107,16 @@ enum Op1 {
     Save,
     /// load the slot (if it holds anything) into the engine as it is now: its current tags stay
     Load,
+    /// a rejected load (garbage bytes): must fail and leave everything as it was
+    LoadBad,
+    /// a rejected load of the first half of the slot (if it holds anything)
+    LoadCut,
+    /// discard policy with a cleanup interval of 10 ms and a discard-unused time of 15 ms (histories
+    /// that contain this or one of the next two operations run on the hooks' virtual clock, which
+    /// only moves when the history says so)
+    Timed,
+    Adv6,
+    Adv12,
 }
 
 const S1_URLS: &[(&str, &str)] = &[
@@ -123,6 +133,7 @@ fn s1_ops() -> Vec<Op1> {
         Op1::Check(0), Op1::Check(1), Op1::Check(2), Op1::Check(3), Op1::Check(4), Op1::Check(5), Op1::Csp, Op1::Cosmetic,
         Op1::Use(0), Op1::Use(1), Op1::Use(2), Op1::Use(3), Op1::EnableA, Op1::DisableA,
         Op1::AlwaysDiscard, Op1::NeverDiscard, Op1::DiscardAll, Op1::SerDeSame, Op1::SerDeFresh, Op1::Save, Op1::Load,
+        Op1::LoadBad, Op1::LoadCut, Op1::Timed, Op1::Adv6, Op1::Adv12,
     ]
 }
 
@@ -178,6 +189,14 @@ fn s1_prepare() -> S1 {
 }
 
 fn s1_run(s: &S1, seq: &[usize], l: &mut Local) -> Option<(usize, String, String)> {
+    let timed = seq.iter().any(|&oi| matches!(s.ops[oi], Op1::Timed | Op1::Adv6 | Op1::Adv12));
+    adblock::verif_hooks::set_thread_virtual_clock(timed);
+    let r = s1_run_inner(s, seq, l);
+    adblock::verif_hooks::set_thread_virtual_clock(false);
+    r
+}
+
+fn s1_run_inner(s: &S1, seq: &[usize], l: &mut Local) -> Option<(usize, String, String)> {
     let mut e = s1_engine();
     let mut mask = 0u8;
     let mut slot: Option<Vec<u8>> = None;
@@ -220,6 +239,21 @@ fn s1_run(s: &S1, seq: &[usize], l: &mut Local) -> Option<(usize, String, String
                     e.deserialize(b).unwrap();
                 }
             }
+            Op1::LoadBad => {
+                if e.deserialize(b"\x00not a serialized engine").is_ok() {
+                    panic!("garbage accepted by deserialize");
+                }
+            }
+            Op1::LoadCut => {
+                if let Some(b) = &slot {
+                    if e.deserialize(&b[..b.len() / 2]).is_ok() {
+                        panic!("truncated data accepted by deserialize");
+                    }
+                }
+            }
+            Op1::Timed => e.set_regex_discard_policy(RegexManagerDiscardPolicy { cleanup_interval: Duration::from_millis(10), discard_unused_time: Duration::from_millis(15) }),
+            Op1::Adv6 => adblock::verif_hooks::advance_thread_clock(Duration::from_millis(6)),
+            Op1::Adv12 => adblock::verif_hooks::advance_thread_clock(Duration::from_millis(12)),
             Op1::SerDeFresh => {
                 let b = e.serialize_raw().unwrap();
                 let mut f = Engine::new(false);
@@ -730,11 +764,23 @@ fn check(ctx: &Ctx) -> i32 {
         let want = [Check(0), Check(1), Check(2), Use(0), Use(1), Use(2), Use(3), EnableA, DisableA, Save, Load];
         (0..p.s1.ops.len()).filter(|&i| want.contains(&p.s1.ops[i])).collect()
     };
+    let s1_failed_loads: Vec<usize> = {
+        use Op1::*;
+        let want = [Check(0), Check(1), Csp, Use(1), Use(3), EnableA, DisableA, Save, Load, LoadBad, LoadCut];
+        (0..p.s1.ops.len()).filter(|&i| want.contains(&p.s1.ops[i])).collect()
+    };
+    let s1_timed: Vec<usize> = {
+        use Op1::*;
+        let want = [Check(0), Check(1), Check(4), Use(0), Use(1), Timed, Adv6, Adv12, DiscardAll, NeverDiscard];
+        (0..p.s1.ops.len()).filter(|&i| want.contains(&p.s1.ops[i])).collect()
+    };
     let all = |n: usize| -> Vec<usize> { (0..n).collect() };
     let sweeps: Vec<(usize, &str, Vec<usize>, usize)> = vec![
         (1, "all operations", all(p.s1.ops.len()), depths[0] - 1),
         (1, "core operations", s1_core, depths[0]),
         (1, "tag switches around save / load", s1_saveload, depths[0]),
+        (1, "rejected loads", s1_failed_loads, depths[0]),
+        (1, "cleanup timer on the virtual clock", s1_timed, depths[0] + 1),
         (2, "all operations", all(p.s2.ops.len()), depths[1]),
         (3, "all operations", all(p.s3.ops.len()), depths[2]),
         (4, "all operations", all(p.s2.ops.len()), depths[1]),
@@ -786,7 +832,7 @@ fn check(ctx: &Ctx) -> i32 {
     }
     ctx.finish(
         "model_checking",
-        "three scenarios (S1 engine with tagged regex rules: queries, use/enable/disable tags, discard policies, discard-all, serialize+deserialize into the same and into a fresh engine; S2 blocker: add_filter of each pool rule, optimize(), tags, queries (S4: the same on a blocker built with optimisations enabled); S3 cosmetic rules + scriptlet resources: queries, reload, resource reload); every operation history of the stated depth whose last operation is a query (shorter ones are prefixes), each on a fresh real subject under a strict-LIFO allocator; every query answer compared with a freshly built engine for the model state (precomputed); non-trivial = the history contains at least two queries; states = model states, transitions = operations executed",
+        "three scenarios (S1 engine with tagged regex rules: queries, use/enable/disable tags, discard policies, discard-all, serialize+deserialize into the same and into a fresh engine, rejected loads (garbage, truncated), a mid-range discard policy with explicit clock steps on the hooks' virtual clock; S2 blocker: add_filter of each pool rule, optimize(), tags, queries (S4: the same on a blocker built with optimisations enabled); S3 cosmetic rules + scriptlet resources: queries, reload, resource reload); every operation history of the stated depth whose last operation is a query (shorter ones are prefixes), each on a fresh real subject under a strict-LIFO allocator; every query answer compared with a freshly built engine for the model state (precomputed); non-trivial = the history contains at least two queries; states = model states, transitions = operations executed",
         &[
             "environment answers (cleanup timer fired, regex discarded) are operations of the alphabet, enumerated not sampled",
             "hash-map iteration order inside the engine is not controlled; a violating history is re-executed twice and under a never-reuse allocator, and labelled",
